@@ -23,8 +23,9 @@ from typing import Any, Callable, Dict, List, Optional, Tuple
 import z3
 
 
-class SymxError(Exception):
-    """Harness / engine problem (never a verdict)."""
+class SymxError(BaseException):
+    """Harness / engine problem (never a verdict).  Not an Exception subclass: code under test and harnesses that catch
+    Exception must not swallow it."""
 
 
 class Nondeterminism(SymxError):
@@ -591,6 +592,13 @@ class ConcreteCtx(BaseCtx):
 # --------------------------------------------------------------------------------------------
 # exploration
 # --------------------------------------------------------------------------------------------
+def _short(obs) -> str:
+    try:
+        return repr(obs[-2:])[:400]
+    except Exception:
+        return ""
+
+
 def _norm_verdict(res) -> Dict[str, Any]:
     if isinstance(res, dict):
         return res
@@ -663,12 +671,12 @@ def explore(
                         st["discharged"] += 1
                     elif kind not in kinds_seen:
                         kinds_seen.add(kind)
-                        cex.append(dict(kind=kind, model=m, detail=""))
+                        cex.append(dict(kind=kind, model=m, detail=_short(ctx.obs)))
                 elif term:
                     st["discharged"] += 1
                 elif kind not in kinds_seen:
                     kinds_seen.add(kind)
-                    cex.append(dict(kind=kind, model=ctx.any_model(), detail=""))
+                    cex.append(dict(kind=kind, model=ctx.any_model(), detail=_short(ctx.obs)))
             if obs_sample is None or (not obs_sample and ctx.obs):
                 obs_sample = list(ctx.obs)
             for k, v in ctx.notes.items():
